@@ -129,6 +129,8 @@ def run(ctx):
         try:
             from .. import dense
             dense.law_stream(ctx)
+            if not ctx.violations:
+                dense.window_law_stream(ctx)
         except ImportError:
             ctx.notes.append("dense-time law stream not available yet")
 
